@@ -463,7 +463,7 @@ def write_replay(ctx, sig, clause, case, detail):
     return path
 
 
-def represent(a, key=None, dtypes=True, ints=True):
+def represent(a, key=None, dtypes=True, ints=True, f32=True):
     """The same values in another in-memory representation, chosen as a pure
     function of the values (or of `key`): C order, Fortran order, a
     non-contiguous strided view and - when every value survives the cast and
@@ -488,7 +488,7 @@ def represent(a, key=None, dtypes=True, ints=True):
         big = np.full((2 * a.shape[0],) + a.shape[1:], 3.5, dtype=a.dtype)
         big[::2] = a
         return big[::2]
-    if k == 4 and dtypes:
+    if k == 4 and dtypes and f32:
         b = a.astype(np.float32)
         if np.array_equal(b.astype(np.float64), a, equal_nan=True):
             return b
